@@ -47,6 +47,29 @@ fn round_trip(b: usize, regs: Vec<u8>, seed: u64, u: &[u64], what: &str) -> Resu
     if g != h || g.b() != h.b() || g.registers() != h.registers() || g.buildhasher() != h.buildhasher() {
         return Err(mk("deserialised sketch differs from the original"));
     }
+    // the sketch's own output is a JSON object: the same object in any key order (a Value round trip sorts the keys, other
+    // formats and hand-written documents order them freely) must be accepted and give the same sketch
+    if b <= 12 {
+        let v = mccore::panics::catch(|| serde_json::to_value(&h)).map_err(|p| mk(&format!("to_value panics: {}", p)))?.map_err(|e| mk(&format!("to_value fails: {}", e)))?;
+        let gv: H = mccore::panics::catch(|| serde_json::from_value::<H>(v.clone())).map_err(|p| mk(&format!("from_value panics: {}", p)))?.map_err(|e| mk(&format!("its own output, as a serde_json::Value (keys sorted), is rejected: {}", e)))?;
+        if gv != h {
+            return Err(mk("Value round trip gives a different sketch"));
+        }
+        if let Some(obj) = v.as_object() {
+            let keys: Vec<&String> = obj.keys().collect();
+            if keys.len() == 3 {
+                for perm in [[0usize, 1, 2], [0, 2, 1], [1, 0, 2], [1, 2, 0], [2, 0, 1], [2, 1, 0]] {
+                    let doc = format!("{{{}}}", perm.iter().map(|&i| format!("{:?}:{}", keys[i], obj[keys[i]])).collect::<Vec<_>>().join(","));
+                    let gp = mccore::panics::catch(|| serde_json::from_str::<H>(&doc)).map_err(|p| mk(&format!("deserialise panics on key order {:?}: {}", perm.iter().map(|&i| keys[i].as_str()).collect::<Vec<_>>(), p)))?
+                        .map_err(|e| mk(&format!("its own output with the keys in the order {:?} is rejected: {}", perm.iter().map(|&i| keys[i].as_str()).collect::<Vec<_>>(), e)))?;
+                    n += 1;
+                    if gp != h {
+                        return Err(mk("a reordered document gives a different sketch"));
+                    }
+                }
+            }
+        }
+    }
     if g.count() != h.count() {
         return Err(mk("count() differs after the round trip"));
     }
